@@ -26,6 +26,10 @@ AdvertiseDiscoveryResult build_transport_advertise_candidates(const Config& conf
                                                              std::uint16_t transport_port,
                                                              const NatTraversalResult& traversal);
 
+// Tells whether an automatically discovered host may be published under the
+// configured policy: private/reserved addresses only with advertise_allow_private.
+bool is_publishable_auto_host(const Config& config, const std::string& host);
+
 // Returns the first candidate discovered via a routable STUN method so
 // callers can decide whether to auto-expose the control plane.
 std::optional<Config::AdvertiseCandidate> select_public_advertise_candidate(const AdvertiseDiscoveryResult& result);
